@@ -123,6 +123,11 @@ class Broken(Harness):
             conns = [AE.Conn([BANNER, AE.u32(13) + bytes([4]) + b'\x14' + inp['x'] + b'\x00' * 20], 'close')]
         elif st == 'garbage-kexinit':
             conns = [AE.Conn([BANNER, AE.frame(bytes([20]) + b'\x00' * 16 + b'\xff\xff\xff\xff' + inp['x'])], 'close')]
+        elif st.startswith('short-kexinit-payload-'):
+            # a correctly framed KEXINIT packet whose payload ends early (cut inside cookie / a name-list / the trailing fields)
+            k = int(st.rsplit('-', 1)[1])
+            full = AE.kexinit_payload(['curve25519-sha256', 'diffie-hellman-group1-sha1'], ['ssh-ed25519'], ['aes128-ctr'], ['hmac-md5'])
+            conns = [AE.Conn([BANNER, AE.frame(full[:k] + (inp['x'] if k > 20 else b''))], 'close')]
         elif st == 'unresolvable':
             import socket
             net = AE.FakeNet([], addrinfo=socket.gaierror(-2, 'Name or service not known'))
@@ -207,7 +212,9 @@ def tasks(tier):
                 mixes.append({c: tri})
     for m in mixes:
         T.append(Fold(m))
-    for st in ('refused', 'silent', 'early-close', 'no-banner', 'banner-only', 'truncated-kexinit', 'wrong-type', 'bad-block-size', 'garbage-kexinit', 'unresolvable'):
+    for st in ('refused', 'silent', 'early-close', 'no-banner', 'banner-only', 'truncated-kexinit', 'wrong-type', 'bad-block-size', 'garbage-kexinit', 'unresolvable',
+               'short-kexinit-payload-1', 'short-kexinit-payload-10', 'short-kexinit-payload-17', 'short-kexinit-payload-30', 'short-kexinit-payload-60',
+               'short-kexinit-payload-100', 'short-kexinit-payload-130'):
         for multi in (False, True):
             T.append(Broken(st, multi))
     T.append(PolicyStatus(False))
